@@ -1,5 +1,7 @@
 import LitexProofs.Periph.Timers
 import LitexProofs.Periph.UartRx
+import LitexProofs.Periph.Spi
+import LitexProofs.Periph.I2c
 /-
   C19 — Serial peripherals and timers produce exact waveforms and always finish.
 
@@ -332,5 +334,149 @@ example :
     (uartRx (2 ^ 30)).out (runFn (uartRx (2 ^ 30)) s0 (fun k => ln (k + 2)) (rxSampleCycle (2 ^ 30) 10)) true
       = ⟨true, 0xA5⟩ := by
   decide
+
+/-! ## SPI master
+
+  Parameters: `c.dw` = data_width, `c.aligned` = mode, `div` = clk_divider (constant, `2 ≤ div < 2^16`), `L` = length
+  with `1 ≤ L ≤ data_width`, `w` = the word in `mosi` when `start` was given.  During the transfer `start`, `mosi` and
+  `pads.miso` are arbitrary in every cycle (`SpiHold` fixes only divider, length, `cs = 1`, `cs_mode = 0`, no loopback):
+  overlapping start pulses and later writes to `mosi` are covered.  `length = 0` or `length > data_width` never
+  leaves RUN and `div < 2` never leaves START/STOP — outside the property's quantifier. -/
+
+/-- **Start, for every divider phase.**  From IDLE (divider counter anywhere inside its period), the cycle with
+    `start = 1` drops `done` and latches the word; the master then waits `n + 1 = div − cnt` START cycles — clock low,
+    chip select released — for the divider's next fall strobe and enters RUN in the state `RunInv … 0 0`: chip select
+    asserted, bit counter 0, first MOSI bit on the pad. -/
+theorem spi_master_start (c : SpiCfg) (div L : Nat) (hdiv : 2 ≤ div) (hd16 : div < 65536) (hL : 1 ≤ L) (hLw : L ≤ c.dw)
+    (smp : Nat → Bool) (s : SpiSt) (hs : IdleOk div s) (x0 : SpiIn) (hx0 : SpiHold div L x0) (hst : x0.start = true)
+    (n : Nat) (ins : List SpiIn) (hlen : ins.length = n + 1) (hins : ∀ x ∈ ins, SpiHold div L x)
+    (hn : (spiNext c s x0).cnt + n + 1 = div) :
+    ((spiMaster c).out s x0).done = false ∧
+    (∀ o ∈ (spiMaster c).traceFrom (spiNext c s x0) ins, o.clk = false ∧ o.csN = true ∧ o.done = false ∧ o.irq = false) ∧
+    RunInv c div L x0.mosi ((spiMaster c).runFrom (spiNext c s x0) ins).misoData smp 0 0
+      ((spiMaster c).runFrom (spiNext c s x0) ins) := by
+  have ha := spi_accept c div L hd16 hL hLw s x0 hx0 hst hs
+  have hw := spi_start_wait c div L x0.mosi smp hdiv hd16 hL hLw n ins hlen hins (spiNext c s x0) ha.2.2.2 hn
+  exact ⟨ha.1, hw.1, hw.2⟩
+
+/-- **spi_master_xfer.**  From the first RUN cycle (time 0), for every pulse `i < L` and position `k < div`:
+    in cycle `i·div + k` the clock pad is high iff `k ≥ div/2` (so exactly `L` pulses, period `div`, high for
+    `div − div/2` cycles), chip select is asserted, MOSI carries bit `data_width−1−i` (raw) / `L−1−i` (aligned) of the
+    word, `done = 0`, `irq = 0`.  Then `div/2` STOP cycles with the clock low and chip select still asserted, `irq`
+    exactly in the last of them.  Then IDLE: `done` returns, and bit `k < L` of the received word is `pads.miso`
+    sampled in the cycle of the rise strobe of pulse `L−1−k` (MSB first). -/
+theorem spi_master_xfer (c : SpiCfg) (div L w m0 : Nat) (hdiv : 2 ≤ div) (hd16 : div < 65536) (hL : 1 ≤ L)
+    (hLw : L ≤ c.dw) (f : Nat → SpiIn) (hf : ∀ t, SpiHold div L (f t)) (s0 : SpiSt)
+    (h0 : RunInv c div L w m0 (spiSmp f div) 0 0 s0) :
+    let st := fun t => runFn (spiMaster c) s0 f t
+    let o := fun t => (spiMaster c).out (st t) (f t)
+    (∀ i, i < L → ∀ k, k < div →
+        (o (i * div + k)).clk = decide (div / 2 ≤ k) ∧ (o (i * div + k)).csN = false ∧
+        (o (i * div + k)).mosi = w.testBit ((if c.aligned then L - 1 else c.dw - 1) - i) ∧
+        (o (i * div + k)).done = false ∧ (o (i * div + k)).irq = false) ∧
+    (∀ k, k < div / 2 →
+        (o (L * div + k)).clk = false ∧ (o (L * div + k)).csN = false ∧ (o (L * div + k)).done = false ∧
+        (o (L * div + k)).irq = decide (k + 1 = div / 2)) ∧
+    ((o (L * div + div / 2)).done = !(f (L * div + div / 2)).start ∧ (o (L * div + div / 2)).clk = false ∧
+     (o (L * div + div / 2)).irq = false ∧
+     ∀ k, k < L → (o (L * div + div / 2)).miso.testBit k = (f ((L - 1 - k) * div + (div / 2 - 1))).miso) := by
+  intro st o
+  have hrun := spi_run c div L w m0 hdiv hd16 hL hLw f hf s0 h0
+  have hstop := spi_stop c div L w m0 hdiv hd16 hL hLw f hf s0 h0
+  refine ⟨?_, ?_, ?_⟩
+  · intro i hi k hk
+    have h := hrun i hi k hk
+    have hrise : spiRise (st (i * div + k)) (f (i * div + k)) = decide (k + 1 = div / 2) :=
+      spiRise_eq _ _ k div h.cnt (hf _).div
+    have hidle : ((st (i * div + k)).fsm == SpiFsm.idle) = false := by rw [h.fsm]; rfl
+    have hstp : ((st (i * div + k)).fsm == SpiFsm.stop) = false := by rw [h.fsm]; rfl
+    refine ⟨h.clk, h.csN, ?_, ?_, ?_⟩
+    · show (st (i * div + k)).mosi = _
+      rw [h.mosi]; rfl
+    · show ((st (i * div + k)).fsm == SpiFsm.idle && _) = false
+      simp [hidle]
+    · show ((st (i * div + k)).fsm == SpiFsm.stop && _) = false
+      simp [hstp]
+  · intro k hk
+    have h := hstop.1 k hk
+    have hs := spi_stop_step c div L m0 (spiSmp f div) hdiv hd16 k hk _ (f (L * div + k)) (hf _) h
+    exact ⟨h.clk, h.csN, hs.2.1, hs.1⟩
+  · have h := hstop.2
+    have hidle : ((st (L * div + div / 2)).fsm == SpiFsm.idle) = true := by rw [h.fsm]; rfl
+    have hstp : ((st (L * div + div / 2)).fsm == SpiFsm.stop) = false := by rw [h.fsm]; rfl
+    refine ⟨?_, h.clk, ?_, ?_⟩
+    · show ((st (L * div + div / 2)).fsm == SpiFsm.idle && _) = _
+      simp [hidle]
+    · show ((st (L * div + div / 2)).fsm == SpiFsm.stop && _) = false
+      simp [hstp]
+    · intro k hk
+      show (st (L * div + div / 2)).miso.testBit k = _
+      rw [h.miso, spiCap_testBit _ _ _ _ hLw k hk]
+      rfl
+
+/-- Non-vacuity and a complete concrete waveform: data_width 4, raw, divider 3, 2 bits of the word 0b1001 — two
+    clock pulses inside chip select, MOSI = bits 3, 2, irq in the cycle before `done` returns. -/
+example :
+    let x : SpiIn := ⟨false, 2, 0b1001, true, false, false, 3, true⟩
+    ((spiMaster ⟨4, false⟩).trace ({ x with start := true } :: List.replicate 11 x)).map
+      (fun o => (o.clk, o.csN, o.mosi, o.done, o.irq)) =
+    [(false, false, false, false, false), (false, true, false, false, false), (false, true, false, false, false),
+     (false, false, true, false, false), (true, false, true, false, false), (true, false, true, false, false),
+     (false, false, false, false, false), (true, false, false, false, false), (true, false, false, false, false),
+     (false, false, false, false, true), (false, false, false, true, false), (false, true, false, true, false)] := by
+  decide
+
+/-! ## I2C master machine -/
+
+/-- **i2c_legal.**  For every command/SDA/poke history from reset and every next input, the transition of the bus
+    lines is legal: SDA changes while SCL stays high only as START (falling, in START0) or STOP (rising, in STOP2);
+    SCL and SDA change in the same edge only when SCL falls (never when it rises) — `I2CMaster`'s pad stage holds
+    SDA for one cycle after an SCL change, so on the pads SDA then moves while SCL is low.
+    The stronger "at most one of SCL/SDA changes per transition" is false for the machine, see the witness. -/
+theorem i2c_legal (cw : Nat) (ins : List I2cIn) (i : I2cIn) :
+    I2cLegal ((i2cMachine cw).run ins) ((i2cMachine cw).next ((i2cMachine cw).run ins) i) :=
+  (i2c_next_legal cw _ i (i2c_inv_reachable cw ins)).2
+
+/-- Negative witness for "at most one line changes": WRITE0 lowers SCL and puts the next data bit on SDA in the
+    same edge. -/
+example :
+    let s : I2cSt := ⟨.write0, true, false, 0x80, false, 8, 0⟩
+    let s' := i2cNext 2 s ⟨false, false, false, false, true, 1, false, 0, false⟩
+    s.scl ≠ s'.scl ∧ s.sda ≠ s'.sda := by decide
+
+/-- **Commands always finish (ticks).**  Outside IDLE every enabled FSM step (a clk2x tick, or an extra command
+    strobe) lowers the rank by exactly one and rank 0 is IDLE; the rank after a command accepted in IDLE is
+    write 19, read 18, start 1 (SCL high) / restart 3 (SCL low), stop 3 — the number of ticks until IDLE. -/
+theorem i2c_command_ticks (s : I2cSt) (i : I2cIn) (hb : s.bits < 16) :
+    (s.fsm ≠ .idle → i2cRank (i2cFsmStep s i) + 1 = i2cRank s) ∧ (i2cRank s = 0 ↔ s.fsm = .idle) ∧ i2cRank s ≤ 34 ∧
+    (s.fsm = .idle → i.start = false → i.write = true → i2cRank (i2cFsmStep s i) = 19) ∧
+    (s.fsm = .idle → i.start = false → i.write = false → i.read = true → i2cRank (i2cFsmStep s i) = 18) ∧
+    (s.fsm = .idle → i.start = true → i2cRank (i2cFsmStep s i) = if s.scl then 1 else 3) ∧
+    (s.fsm = .idle → i.start = false → i.write = false → i.read = false → i.stop = true → s.scl = false →
+       i2cRank (i2cFsmStep s i) = 3) := by
+  refine ⟨fun hn => i2c_rank_step s i hb hn, i2c_rank_zero_iff s, i2c_rank_le s hb, ?_, ?_, ?_, ?_⟩
+  · intro h1 h2 h3; simp [i2cFsmStep, i2cRank, h1, h2, h3]
+  · intro h1 h2 h3 h4; simp [i2cFsmStep, i2cRank, h1, h2, h3, h4]
+  · intro h1 h2; cases hs : s.scl <;> simp [i2cFsmStep, i2cRank, h1, h2, hs]
+  · intro h1 h2 h3 h4 h5 h6; simp [i2cFsmStep, i2cRank, h1, h2, h3, h4, h5, h6]
+
+/-- **Commands always finish (cycles).**  With a constant clock-divider load `l`, from any state reachable with that
+    load (`cnt ≤ l`), whatever inputs follow — further command strobes, bus writes to data/ack, any SDA — the machine is
+    back in IDLE within `rank·(l+1) ≤ 34·(l+1)` cycles: no command sequence leaves it stuck. -/
+theorem i2c_returns_idle (cw l : Nat) (s : I2cSt) (f : Nat → I2cIn) (hf : ∀ t, (f t).load = l) (hb : s.bits < 16)
+    (hc : s.cnt ≤ l) :
+    ∃ k, k ≤ i2cRank s * (l + 1) ∧ k ≤ 34 * (l + 1) ∧ (runFn (i2cMachine cw) s f k).fsm = .idle := by
+  obtain ⟨k, hk, hidle⟩ := i2c_reaches_idle cw l (i2cMu l s) s f hf hb hc (Nat.le_refl _)
+  have h1 := i2c_mu_le l s hc
+  have h2 : i2cRank s * (l + 1) ≤ 34 * (l + 1) := Nat.mul_le_mul_right _ (i2c_rank_le s hb)
+  exact ⟨k, by omega, by omega, hidle⟩
+
+/-- Non-vacuity: a write command issued in IDLE (SCL low, load 1) needs the full 19 ticks. -/
+example :
+    let idle : I2cIn := ⟨false, false, false, false, true, 1, false, 0, false⟩
+    let s0 : I2cSt := ⟨.idle, false, true, 0xA5, false, 0, 1⟩
+    let s1 := i2cNext 2 s0 { idle with write := true }
+    i2cRank s1 = 19 ∧ (runFn (i2cMachine 2) s1 (fun _ => idle) 36).fsm ≠ .idle ∧
+    (runFn (i2cMachine 2) s1 (fun _ => idle) 37).fsm = .idle := by decide +kernel
 
 end Litex.C19
